@@ -43,7 +43,7 @@ def SORT_INV(v, prefix):
 
 
 K("awkward_sort",
-  stdlib=True, auto_inv=False,
+  stdlib=True, auto_inv=False, z3_budget_ms=4000,
   extents={"toptr": "parentslength", "fromptr": "length", "offsets": "offsetslength"},
   requires=["offsetslength >= 1", OFFS, "offsets[0] == 0", "offsets[offsetslength - 1] == length", "parentslength <= length"],
   loops={"L0": SORT_INV("index", "sort"), "L1": SORT_INV("index", "sort"), "L2": SORT_INV("index", "sort"), "L3": SORT_INV("index", "sort"),
@@ -87,7 +87,7 @@ _FULL = {"loops": {"L0": FULL_LOOP, "L1": FULL_LOOP, "L2": FULL_LOOP, "L3": FULL
 # minute of solver set-up, which the quick tier cannot afford eleven times.
 K("awkward_argsort",
   stdlib=True, auto_inv=False,
-  z3_budget_ms=4000,      # (two postconditions are decided by cvc5 in milliseconds and time out in z3)
+  z3_budget_ms=8000,
   extents={"toptr": "length", "fromptr": "length", "offsets": "offsetslength"},
   requires=["offsetslength >= 1", OFFS, "offsets[0] == 0", "offsets[offsetslength - 1] == length"],
   loops={"L0": SAFE_LOOP, "L1": SAFE_LOOP, "L2": SAFE_LOOP, "L3": SAFE_LOOP, "L4": ["0 <= i"]},
